@@ -206,7 +206,7 @@ func (c *Characteristic) convert(v interface{}) interface{} {
 	case FormatUInt32:
 		return int(to.Uint64(v))
 	case FormatInt32:
-		return int(to.Uint64(v))
+		return int(to.Int64(v))
 	case FormatUInt64:
 		return int(to.Uint64(v))
 	case FormatBool:
